@@ -1030,6 +1030,12 @@ func (rs *s3ClientStorage) CompleteMultipartUpload(ctx context.Context, bucketNa
 		input.ChecksumSHA1 = checksumInput.ChecksumSHA1
 		input.ChecksumSHA256 = checksumInput.ChecksumSHA256
 	}
+	if opts != nil {
+		input.IfMatch = opts.IfMatchETag
+		if opts.IfNoneMatchStar {
+			input.IfNoneMatch = aws.String("*")
+		}
+	}
 	if opts != nil && len(opts.Parts) > 0 {
 		input.MultipartUpload = &types.CompletedMultipartUpload{
 			Parts: mapCompleteMultipartUploadParts(opts.Parts),
